@@ -716,7 +716,12 @@ func (pc ParseContext) compileCompare(ctx context.Context, b ast.Branch, c ast.C
 			return nil, err
 		}
 		argExprs = append(argExprs, argExpr)
-		comps = append(comps, compareOps[op])
+		comp, has := compareOps[op]
+		if !has {
+			// the grammar's pattern also accepts spellings such as !< that no comparison is defined for
+			return nil, fmt.Errorf("unknown comparison operator %s", op)
+		}
+		comps = append(comps, comp)
 
 		opStrs = append(opStrs, op)
 	}
